@@ -269,7 +269,7 @@ def gen_tree(rng, feats=None, depth=0):
             d = rng.choice(dirs) if i else ""
             blob = "".join(chr(rng.randrange(32, 127)) for _ in range(997)) + "\x00\xff\r\n"
             data = (blob * (n // len(blob) + 1))[:n - 8] + "%08d" % n
-            add({"path": join(d, "big%d.bin" % i), "kind": "file", "data": data, "flag": False, "store": rng.random() < 0.8})
+            add({"path": join(d, "big%d.bin" % i), "kind": "file", "data": data, "flag": False, "store": i == 0 or rng.random() < 0.8})
     # real-file-only content
     if "mbox" in feats or rng.random() < 0.3:
         d = rng.choice(dirs)
@@ -587,8 +587,9 @@ def containers(rng, n):
     """how the archive file comes into being: who writes it and what happens to it afterwards.
     The list is walked in order (rotated per run), its first four already cover every writer, a
     self-extractor stub, a comment, data descriptors and store-only"""
-    base = [{"writer": "infozip", "comment": True, "sfx": True}, {"writer": "raw", "descriptor": True, "comment": True},
-            {"writer": "zipfile", "sfx": True}, {"writer": "infozip", "store_all": True, "descriptor": True},
+    base = [{"writer": "infozip", "store_all": True, "comment": True, "sfx": True}, {"writer": "raw", "comment": True},
+            {"writer": "zipfile", "sfx": True}, {"writer": "infozip", "descriptor": True},
+            {"writer": "raw", "descriptor": True}, {"writer": "infozip", "store_all": True, "descriptor": True},
             {"writer": "raw", "store_all": True, "sfx": True}, {"writer": "infozip", "zip64": True},
             {"writer": "zipfile", "comment": True}, {"writer": "infozip"}, {"writer": "raw"}, {"writer": "zipfile"}]
     k = rng.randrange(4) if n >= len(base) else 0
